@@ -1419,7 +1419,7 @@ def run(ctx):
                              dict(case, model=s), key="C02:flatten_sns_names:corr-forms")
             elif kind == "flatgen":
                 if s != got:
-                    if case["form"] == "table" and len(case["value"]) > 1:
+                    if case["form"] == "table" and len(case["value"]) > 1 and case.get("refs") is not None and len(case["refs"]) >= len(case["value"]):
                         ctx.fail("correspondence", "gen.flatten_sns_names (table form) differs from model flatten_gen: %s / %s" % (got[:60], s[:60]),
                                  dict(case, model=s), key="C02:flatten_sns_names:corr-table")
                     else:
